@@ -288,6 +288,12 @@ func rhDiffRun(f int, maxItems []int, mode int) {
 	if rhProbeKeys != nil {
 		probes = rhProbeKeys // concrete key set: compare at every key instead of an arbitrary one
 	}
+	if mode == 4 {
+		// the first plugin is shown exactly what the runtime submitted
+		for _, probe := range probes {
+			cmpSpecs(f, specOf(req.Container), spec0L, &cdiRec{}, &cdiRec{}, probe, "first-view")
+		}
+	}
 	for j := range maxItems {
 		var cur []sItem
 		if rhItemsHook != nil {
